@@ -369,6 +369,36 @@ claim('C10',
       'ink_extensions.bezmisc (roles verified from source when installed under /venv).',
       'DESIGN.md section 3, C10')
 
+claim('C13',
+      'one-symbolic-iteration abstract interpretation of every loop of the index (inductive '
+      'steps over loop-carried symbols); position-case decision of the adjacency guards; '
+      'normal-form agreement of the cell formula across writer and reader; table agreement of '
+      'the id scheme',
+      'PARTIAL (geometric optimality not decided). Decides the structural consistency that '
+      'makes nearest() correct for every geometry and removal history: D1 for each of the 10 '
+      'position cases of a cell (first/interior/last/only column x row) find_adjacents yields '
+      'exactly the in-range cells of the 3x3 block, itself included, as index+dx+dy*bins '
+      '(affine guards decided per case; non-affine guards fall back to a small-grid witness '
+      'search that can only report, never pass). D2 constructor (start and end vertex) and query '
+      'use one cell formula min(floor((c-min)/size),bins-1), query also clamped to 0, x with x- '
+      'and y with y-quantities, x + bins*y; the extent loop folds every start vertex - and every '
+      'end vertex iff reverse - into the right extrema starting from +-inf; one common positive '
+      'shim; bin size = widened extent / bins. D3 writer ids (k from vertices[k][0]; '
+      'path_count+k from vertices[k][1] only under reverse) and the decoding in both scans of '
+      'nearest agree. D4 every append to grid[g] is paired with lookup[id]=g; lookup is sized '
+      '2*count / count; remove_path removes exactly p (and p+path_count iff reverse) from the '
+      'recorded cells and touches nothing else. D5 nearest: running best starts (inf, None); '
+      'replaced only by the scanned id of grid[cell] under dist < or <= best, distance and id '
+      'together, dist = square_dist(query, decoded vertex) (checked to be the squared Euclidean '
+      'distance); scan 1 over adjacents[query cell], fallback over every other cell continuing '
+      'from the running best; early return hands out only a non-None best of scan 1, final '
+      'return the overall best. D6 class-level lists are re-bound on self before mutation. NOT '
+      'decided: the metric argument from these facts to "true nearest within one cell width"; '
+      'float floor at cell borders.',
+      'Trusted: Python ast, vf/interp.py, vf/loops.py (one-iteration induction: a loop-carried '
+      'fact is established for the symbolic iteration and holds by induction), list semantics.',
+      'DESIGN.md section 3, C13')
+
 
 def build():
     checks = []
